@@ -263,6 +263,12 @@ def main(argv: List[str]) -> int:
               '﻿﻿Table t {\n id int\n}', 'Table t {\n id int' + '(' * 8 + '1' + ')' * 8 + '\n}', 'Table t {\n id int [default: `' + '(' * 50 + ')' * 50 + '`]\n}',
               'Table t {\n id "' + 'x' * 5000 + '"\n}', "Table t {\n id int [note: '" + "\\'" * 2000 + "']\n}", '\x00', 'Table t {\n id int\n}\x00']:
         add(t, 'degenerate')
+    # strings Python can hold but no encoding can: lone surrogates (what errors='surrogateescape' or a JSON "\\ud83d" produce),
+    # non-characters and astral code points, with and without a leading byte order mark
+    for t in ['\ud800', "Table t {\n  id int [note: 'caf\udce9']\n}\n", '\ufeff' + "Table t {\n  id int [note: 'caf\udce9']\n}\n",
+              'Table "a\udfffb" {\n  id int\n}\n', "Table t {\n  id int // \ud83d\n}\n", "Note n {\n  '\uffff \U0010ffff \U0001f600'\n}\n",
+              "Table t {\n  id int [default: `'\udc80'`]\n}\n"]:
+        add(t, 'degenerate')
     items = [{'tid': i + 1, 'text': t, 'origin': o, 'allow': ('k:' in t or 'k2:' in t)} for i, (t, o) in enumerate(texts.items())]
     recs: List[Dict[str, Any]] = []
     for part in core.pmap(_exec_chunk, core.chunked(items, core.NCPU * 6)):
